@@ -262,28 +262,46 @@ HDIR = tempfile.mkdtemp(prefix="pyvc-c18-hdr-")
 open(os.path.join(HDIR, "strings.mac"), "w").write('.ascii "a\\qb"\n.word 1\n')
 open(os.path.join(HDIR, "nums.mac"), "w").write(".word 8\n.word 1/0\n")
 open(os.path.join(HDIR, "chars.mac"), "w").write(".word 'я, 10\n")
+open(os.path.join(HDIR, "once.mac"), "w").write(".once\nk1 = 123\n.word k1\n")
+POOL += ['.once\nnop\n', '.include "%%s/once.mac"\n.include "%%s/once.mac"\n.word k1 + 1\n' %% (HDIR, HDIR), '.once\nmov r0\n']
 POOL += ['.include "%%s/strings.mac"\nnop\n' %% HDIR, '.include "%%s/nums.mac"\n' %% HDIR, '.include "%%s/chars.mac"\nhalt\n' %% HDIR]
 PROBE_INC = 'nop\n.include "%%s/strings.mac"\n.include "%%s/nums.mac"\n.include "%%s/chars.mac"\n' %% (HDIR, HDIR, HDIR)
+# per-file bookkeeping ('.once') belongs to one assembly: the probe itself and a header it includes twice are guarded by '.once'
+PROBE_ONCE = '.link 2000\n.once\nentry: mov #1, r0\n.include "%%s/once.mac"\n.include "%%s/once.mac"\n.word entry, k1\n' %% (HDIR, HDIR)
 _run0 = run
 def run(src, _r=_run0):
     import json
     return json.loads(json.dumps(_r(src)).replace(HDIR, "<HDR>"))       # the scratch directory's name differs from process to process
 rnd = random.Random(%d)
-first = [run(PROBE), run(PROBE_OK) + [run(PROBE_INC)], process_state()]
+PROBES = [PROBE, PROBE_OK, PROBE_INC, PROBE_ONCE]
+ONLY = os.environ.get("C18_ONLY")
+if ONLY is not None:
+    # the reference: each probe alone, as the first and only assembly of a fresh process
+    result = run(PROBES[int(ONLY)])
+    shutil.rmtree(HDIR, ignore_errors=True)
+    import json; print(json.dumps(result)); sys.exit(0)
+first = [run(PROBE), run(PROBE_OK) + [run(PROBE_INC), run(PROBE_ONCE)], process_state()]
 bad = []
 for h in range(%d):
     for _ in range(rnd.randrange(1, 8)):
         run(rnd.choice(POOL))
-    now = [run(PROBE), run(PROBE_OK) + [run(PROBE_INC)], process_state()]
+    now = [run(PROBE), run(PROBE_OK) + [run(PROBE_INC), run(PROBE_ONCE)], process_state()]
     if now != first:
         bad.append([h, [i for i in range(3) if now[i] != first[i]], now[2] if now[2] != first[2] else None])
 shutil.rmtree(HDIR, ignore_errors=True)
 result = [first, bad]
 ''' % (driver.tree_root(), int(os.environ.get("VERIF_SEED", "0") or 0), n_hist)
     outs = []
+    fresh = []
     for seed in ("0", "1", "12345"):
         p = subprocess.run(["/venv/bin/python", "-c", code + "\nimport json; print(json.dumps(result))"], capture_output=True, text=True, env=dict(os.environ, PYTHONHASHSEED=seed), cwd="/", timeout=600)
         outs.append(p.stdout.strip().splitlines()[-1] if p.stdout.strip() else "ERR " + p.stderr[-300:])
+    for k in range(4):
+        p = subprocess.run(["/venv/bin/python", "-c", code], capture_output=True, text=True, env=dict(os.environ, PYTHONHASHSEED="0", C18_ONLY=str(k)), cwd="/", timeout=600)
+        try:
+            fresh.append(json.loads(p.stdout.strip().splitlines()[-1]))
+        except Exception:
+            fresh.append("ERR " + p.stderr[-300:])
     parsed = []
     for o_ in outs:
         try:
@@ -292,6 +310,14 @@ result = [first, bad]
             parsed.append(None)
     ok = all(p is not None and p[1] == [] for p in parsed) and all(p[0] == parsed[0][0] for p in parsed if p)
     detail = [str(p)[:200] if p is None or p[1] else "same" for p in parsed]
+    # the first probes of the history process (already preceded by one another) against each probe alone in a fresh process
+    if parsed[0]:
+        f0 = parsed[0][0]
+        seq = [f0[0], f0[1][:-2], f0[1][-2], f0[1][-1]]
+        for k in range(4):
+            if seq[k] != fresh[k]:
+                ok = False
+                detail.append("probe %d differs from its result in a fresh process: %s vs fresh %s" % (k, str(seq[k])[:200], str(fresh[k])[:200]))
     o1 = dict(label="probe-result-identical-after-every-history-and-under-three-hash-seeds", kind="rac", status="proved" if ok else "failed", secs=0.0, path=[], witness=None,
               detail=str(detail) + ("" if ok else str(outs)[:600]), events=[], smt2=None, backend="cpython-native", unit="history-rac", func="parse + Compiler (run-time check)",
               cases=3 * n_hist, cfg=dict(kind="rac"))
